@@ -19,9 +19,12 @@ def W.iro (w : W) (i : Id) : List Id := (w.g.sro i).filter w.isIface
 /-- `Specification.changed` ran at `x` during the re-basing of `s` iff `x` is `s` or (now) extends it -/
 def visited (g' : G) (s x : Id) : Bool := x == s || (g'.sro x).contains s
 
+/-- `InterfaceClass(name, bases, attrs)`: the new interface's `changed()` runs (a brand-new interface has no dependents, so
+in every reachable state it is the only specification visited) -/
 def newIface (w : W) (s : Id) (bs : List Id) (attrs : Attrs) (tags : AList String Nat) (invs : List (Nat × Bool)) : W :=
-  { w with g := newNode w.g s bs, direct := upd w.direct s attrs, tags := upd w.tags s tags, invs := upd w.invs s invs,
-           memo := upd w.memo s [] }
+  let g' := newNode w.g s bs
+  { w with g := g', direct := upd w.direct s attrs, tags := upd w.tags s tags, invs := upd w.invs s invs,
+           memo := fun x => if visited g' s x then [] else w.memo x }
 
 /-- `I.__bases__ = bs`: every specification `changed()` visits drops its memo -/
 def setBases (w : W) (s : Id) (bs : List Id) : W :=
